@@ -503,12 +503,13 @@ static void trace_add(const char *fmt, ...)
 	memcpy(g_tracebuf + g_tracelen, tmp, n + 1); g_tracelen += n;
 }
 
+static int g_alloc_ctx_token;
 static void *rec_alloc(void *ctx, size_t size)
 {
 	int k = g_alloc_count++;
 	int refuse = 0;
 	void *p;
-	(void) ctx;
+	if (ctx != &g_alloc_ctx_token) g_foreign_free++;       /* not called with the allocator_data the caller configured */
 	if (g_mask) { if ((size_t) k < g_masklen) refuse = g_mask[k] == '1'; else refuse = g_mask_tail; }
 	if (refuse) { g_refused++; if (g_trace) trace_add(" r%zu", size); return NULL; }
 	p = malloc(size ? size : 1);
@@ -522,7 +523,7 @@ static void *rec_alloc(void *ctx, size_t size)
 static void rec_free(void *ctx, void *p)
 {
 	size_t i;
-	(void) ctx;
+	if (ctx != &g_alloc_ctx_token) { g_foreign_free++; if (g_trace) trace_add(" f!ctx"); }
 	for (i = 0; i < g_nblocks; i++) if (g_blocks[i].p == p) {
 		if (g_trace) trace_add(" f%d", g_blocks[i].id);
 		free(p);
@@ -532,7 +533,6 @@ static void rec_free(void *ctx, void *p)
 	g_foreign_free++;
 	if (g_trace) trace_add(" f?");
 }
-static int g_alloc_ctx_token;
 static ProtobufCAllocator g_rec = { rec_alloc, rec_free, &g_alloc_ctx_token };
 static void rec_reset(const char *mask, int tail)
 {
